@@ -10,9 +10,11 @@ ops (banners are hex of the banner text):
       own implementation of the format (x/crypto argon2 + crypto/cipher), re-validated by the executor
   enc <curve> <pass hex|-> <key hex|-> <mem> <par> <iter>
       -> ok <curve> <key hex> <mem> <par> <iter> <salt length> | err:curve | err:indep-open …
+  kdftamper …  see Driver/KeysKdfParams.lean
 -/
 import Nebula.Driver.Common
 import Nebula.Model.CertKeys
+import Nebula.Driver.KeysKdfParams
 
 namespace Nebula.Driver.Certkeys
 open Nebula.Driver Nebula.Cert Nebula.CertKeys
@@ -89,7 +91,11 @@ def step (s : Unit) (args : List String) (impl : String) : Unit × Out :=
         | some _ => s!"ok {curve} {bytesToHex key} {mem} {par} {iter} 32"
       (s, { model := m, verdict := expect "encrypted-key-not-interoperable" impl m, tag := "enc:" ++ ((m.splitOn " ").headD "") })
     | _, _, _, _, _ => (s, badOp)
-  | _ => (s, badOp)
+  | _ =>
+    -- kdftamper (metadata binding): Driver/KeysKdfParams.lean
+    match KeysKdfParams.step args impl with
+    | some o => (s, o)
+    | none => (s, badOp)
 
 def main : IO Unit := runEngine () step
 
